@@ -30,6 +30,7 @@ import (
 	schedulingv1 "k8s.io/api/scheduling/v1"
 	"k8s.io/apimachinery/pkg/api/resource"
 	metav1 "k8s.io/apimachinery/pkg/apis/meta/v1"
+	"k8s.io/apimachinery/pkg/util/intstr"
 	"k8s.io/apimachinery/pkg/runtime"
 	clientgoscheme "k8s.io/client-go/kubernetes/scheme"
 	"sigs.k8s.io/controller-runtime/pkg/client"
@@ -168,6 +169,19 @@ func c13Scenarios(workers int) []*c13Scenario {
 		})), PodLabel: true, Matched: true, Tier: "batch"},
 		{Name: "pod-batch+labels-profile", Profiles: P(c13Profile("a", labelsOnly)), PodLabel: true, PodPrio: c13I32(extension.PriorityBatchValueMax), Matched: true, Tier: "batch"},
 		{Name: "pod-label-mid+labels-profile", Profiles: P(c13Profile("a", labelsOnly)), PodLabel: true, PodPCL: "koord-mid", Matched: true, Tier: "mid"},
+		// the only selecting profile is skipped by its probability (0%): nothing of the profile is applied, the pod keeps its
+		// own mid / batch priority and its resources are still translated - and that translation is then the ONLY mutation
+		// of the request (seed C13-7: its "mutated" result did not reach the patch)
+		{Name: "pod-label-mid+labels-profile-probability-0", Profiles: P(c13Profile("a", func(p *configv1alpha1.ClusterColocationProfile) {
+			labelsOnly(p)
+			zero := intstr.FromString("0%")
+			p.Spec.Probability = &zero
+		})), PodLabel: true, PodPCL: "koord-mid", Matched: true, Tier: "mid"},
+		{Name: "pod-batch+labels-profile-probability-0", Profiles: P(c13Profile("a", func(p *configv1alpha1.ClusterColocationProfile) {
+			labelsOnly(p)
+			zero := intstr.FromString("0%")
+			p.Spec.Probability = &zero
+		})), PodLabel: true, PodPrio: c13I32(extension.PriorityBatchValueMax), Matched: true, Tier: "batch"},
 		{Name: "skip-annotation", Profiles: P(c13Profile("a", skipAnno(batch("pc-batch-max")))), PodLabel: true, Matched: true, Skip: true, Tier: "batch"},
 		{Name: "two-batch+skip-labels", Profiles: P(c13Profile("a", batch("pc-batch-max")), c13Profile("b", skipAnno(labelsOnly))), PodLabel: true, Matched: true, Skip: true, Tier: "batch"},
 		{Name: "one-prod", Profiles: P(c13Profile("a", func(p *configv1alpha1.ClusterColocationProfile) {
@@ -873,7 +887,7 @@ func TestVerifC13Mutating(t *testing.T) {
 		"CPU in milli-cores: an input that is not a whole number of milli-cores may be rounded either way to the adjacent whole milli-core; everything else must be exact",
 		"a request that was missing and comes out equal to the translated limit is accepted (Kubernetes' meaning of a missing request) and counted as diagnostic",
 		"the summary annotation is judged on batch-cpu/batch-memory of every app container (it may additionally cover init containers); mid-tier entries are not part of the summary",
-		"profiles with probability, patch, label/annotation key mappings are outside the alphabet",
+		"profiles with a probability other than unset / 0%, patch, label/annotation key mappings are outside the alphabet",
 	}
 	cpuFull := []string{"", "0", "1m", "500u", "500m", "1", "1000500u", "1500m", "2"}
 	memFull := []string{"", "0", "1", "1Ki", "1048577", "1G"}
@@ -978,7 +992,8 @@ func TestVerifC13Mutating(t *testing.T) {
 		ds := mc.NewDistinctSet()
 		cpu3 := []string{"", "500u", "500m", "2"}
 		mem3 := []string{"", "1Ki", "1048577"}
-		sel := []*c13Scenario{byName["one-batch-min"], byName["one-mid-max"], byName["two-batch-then-mid"], byName["skip-annotation"], byName["profile-not-matching"]}
+		sel := []*c13Scenario{byName["one-batch-min"], byName["one-mid-max"], byName["two-batch-then-mid"], byName["skip-annotation"], byName["profile-not-matching"],
+			byName["pod-label-mid+labels-profile-probability-0"], byName["pod-batch+labels-profile-probability-0"]}
 		if env.Thorough() {
 			cpu3, mem3, sel = cpuFull, memFull, scs
 		}
